@@ -113,7 +113,7 @@ def solve_path(rep, prog):
     # (1) nothing but the solve (and plain bindings) inside the try; (2) no raise; (3) zero fallbacks only in the handler or under an isnan test
     for t_ in tries:
         for s_ in t_.body:
-            if not (isinstance(s_, (ast.Assign, ast.Return, ast.Expr)) and not any(isinstance(x, (ast.If, ast.Raise)) for x in ast.walk(s_))): bad.append(s_)
+            if not (isinstance(s_, (ast.Assign, ast.AnnAssign, ast.Return, ast.Expr)) and not any(isinstance(x, (ast.If, ast.Raise)) for x in ast.walk(s_))): bad.append(s_)
     handler_nodes = {id(x) for t_ in tries for h in t_.handlers for x in ast.walk(h)}
     for n in ast.walk(cf):
         if isinstance(n, ast.If):
